@@ -11,6 +11,7 @@
 From Coq Require Import String ZArith NArith List Bool Lia ZifyNat ZifyN.
 From SF Require Import Base.FOps Base.FLoop Base.FInt Gen.FuncsInt Base.Varint Model.TWKB
   Proofs.Funcs_tie_Loop_lib Proofs.Funcs_tie_Int_Varint.
+From SF Require Model.WKB.
 Import ListNotations.
 Open Scope Z_scope.
 
@@ -52,5 +53,23 @@ Section Guard.
     geom_twkbParser_checkCount p (2 ^ 62 + 1) 4 = false.
   Proof.
     intros p Eb Ep. unfold geom_twkbParser_checkCount. rewrite Eb, Ep. vm_compute. reflexivity.
+  Qed.
+
+  (* geom/wkb_parser.go:wkbParser.readByte against Model/WKB.v:rd_byte (the reader every WKB header goes
+     through): on an empty body the error result (ok = false) and the parser unchanged, otherwise the first
+     byte and the body advanced by one - for EVERY body, byte-order field and native-order flag; the
+     allocation counter of the model's state is not touched *)
+  Lemma tie_wkb_readByte : forall (bs : list N) (bo : Z) (no : bool) (alloc : N),
+    geom_wkbParser_readByte (Mk_geom_wkbParser (F:=F) (zbytes bs) bo no)
+    = match WKB.rd_byte (bs, alloc) with
+      | WKB.POk b (r, _) => Known (Z.of_N b, true, Mk_geom_wkbParser (zbytes r) bo no)
+      | _ => Known (0, false, Mk_geom_wkbParser (zbytes bs) bo no)
+      end.
+  Proof.
+    intros bs bo no alloc. unfold geom_wkbParser_readByte, WKB.rd_byte. cbn [geom_wkbParser_body geom_wkbParser_bo geom_wkbParser_no fst snd].
+    destruct bs as [|b r]; [reflexivity|].
+    pose proof (slice_from_zbytes (b :: r) 1) as H. cbn [length skipn Z.to_nat Pos.to_nat Pos.iter_op] in H.
+    rewrite H by lia. cbn [zbytes map length lookup].
+    destruct (Z.eqb_spec (Z.of_nat (S (length (map Z.of_N r)))) 0) as [E|_]; [lia|]. reflexivity.
   Qed.
 End Guard.
